@@ -167,6 +167,10 @@ fn check_written(check: &Check, who: &str, wire: &[u8], w: &vmon::Value) -> Opti
 }
 
 fn gen_name(rng: &mut Rng) -> String {
+    gen_name_max(rng, usize::MAX)
+}
+
+fn gen_name_max(rng: &mut Rng, max: usize) -> String {
     const ODD: [&str; 19] = [" ", "\0", "\t", "\r", "é", "ß", "中", "🦀", "\u{80}", "\u{7f}", "%", "\\", "\"", "/", "//", ".", "na", "ls", "\u{2028}"];
     let target = match rng.usize(14) {
         0 => 1,
@@ -180,7 +184,8 @@ fn gen_name(rng: &mut Rng) -> String {
         8 | 9 => 16382,
         10 => 300 + rng.usize(3000),
         _ => 2 + rng.usize(40),
-    };
+    }
+    .min(max);
     let mut s = String::from("/");
     while s.len() < target {
         match rng.usize(4) {
@@ -196,8 +201,8 @@ fn gen_name(rng: &mut Rng) -> String {
     s
 }
 
-fn roundtrip_case(check: &Check, rng: &mut Rng) {
-    let name = gen_name(rng);
+fn roundtrip_case(check: &Check, rng: &mut Rng, tiny: bool) {
+    let name = if tiny { gen_name_max(rng, 200) } else { gen_name(rng) };
     if !msref::is_plain_valid_name(&name) {
         return;
     }
@@ -662,8 +667,8 @@ pub fn run(args: &Args) -> i32 {
     let thorough = args.tier == vmon::Tier::Thorough && !tiny;
 
     let n_a = util::budget(args, 1_200, 40_000, 4);
-    vmon::par_cases(&check, n_a, args.threads, |_, rng| roundtrip_case(&check, rng));
-    vmon::par_cases(&check, util::budget(args, 60, 2_000, 1), args.threads, |_, rng| api_reject_case(&check, rng));
+    vmon::par_cases(&check, n_a, args.threads, |_, rng| roundtrip_case(&check, rng, tiny));
+    vmon::par_cases(&check, util::budget(args, 60, 2_000, 0), args.threads, |_, rng| api_reject_case(&check, rng));
 
     // B exhaustive short strings, bare and after a header
     if !tiny {
@@ -681,7 +686,8 @@ pub fn run(args: &Args) -> i32 {
             };
             let three = bytes.len() == 3;
             for rig in RIGS {
-                if three && !(rig == Rig::Listener || rig == Rig::DialerV1) {
+                // 3-byte strings: listener all of them, V1 dialer every fourth
+                if three && !(rig == Rig::Listener || (rig == Rig::DialerV1 && i % 4 == 0)) {
                     continue;
                 }
                 if !three {
@@ -705,7 +711,7 @@ pub fn run(args: &Args) -> i32 {
         });
     }
     // B PRNG / structured
-    vmon::par_cases(&check, util::budget(args, 60_000, 2_000_000, 40), args.threads, |_, rng| {
+    vmon::par_cases(&check, util::budget(args, 60_000, 1_000_000, 40), args.threads, |_, rng| {
         let (bytes, label) = gen_hostile(rng);
         let rig = *rng.pick(&RIGS);
         let sched = if rng.bool() { pipe::Sched::random(rng) } else { pipe::Sched::smooth() };
@@ -779,6 +785,6 @@ pub fn run(args: &Args) -> i32 {
         let (n, rig, bad) = c_cases[i as usize];
         too_many_case(&check, n, rig, bad);
     });
-    check.note("exhaustive", json!({"byte_strings": if thorough { "all of length 1-3 after a header (3: listener + V1 dialer), all of length 1-2 bare" } else { "all of length 1-2 bare and after a header; 3-byte sampled" }, "overall": false}));
+    check.note("exhaustive", json!({"byte_strings": if thorough { "all of length 1-3 after a header (3: listener all, V1 dialer every fourth), all of length 1-2 bare" } else { "all of length 1-2 bare and after a header; 3-byte sampled" }, "overall": false}));
     check.finish()
 }
